@@ -331,12 +331,9 @@ where
         Ok(v) => v,
         Err(m) => {
             if m.contains(BUDGET_MSG) {
-                let last_eps = traces.last().map(|t| t.epsilon).unwrap_or(f64::NAN);
-                if last_eps >= 1e-3 {
-                    rep.violation(&format!("{sig} hang: 2^18 target evaluations in one run with a step size >= 1e-3"), mon, case, json!({"cfg": cfg, "eps": last_eps}));
-                } else {
-                    rep.inconclusive("target-evaluation budget exhausted with a tiny adapted step size (long trajectories are legitimate)");
-                }
+                // tree depth is unbounded in the algorithm and slowly confining targets (the cusp) have
+                // very long orbits: only the initialisation phase above has a sound logical bound
+                rep.inconclusive("target-evaluation budget (2^18 per run) exhausted: long trajectories are legitimate");
             } else {
                 rep.violation(&format!("{sig} panic"), mon, case, json!({"cfg": cfg, "panic": m}));
             }
